@@ -179,7 +179,9 @@ def run(cx, tier='quick'):
     # templates never reached from a handler output: they must be scalar templates (parse2 targets, fn arguments)
     for t in cx.gm.templates:
         if id(t) not in visited:
-            c, ast, forms = cx.gm.parse_any(t, ['path', 'type', 'expr', 'wherepreds', 'stmts'])
+            if id(t.fn) in getattr(cx.crate, 'fully_inlined', ()):
+                continue        # the helper's body is analysed as the inlined copy in each of its callers
+            c, ast, forms = cx.gm.parse_any(t, ['path', 'type', 'expr', 'wherepreds', 'stmts', 'items', 'implitems', 'arms'])
             if c is None:
                 rep.bad('TPL-PARSE', t.fn.qname, 'scalar-template', 'template parses in no syntactic category', t.file, t.line, {'template': t.text()[:300]})
             else:
@@ -190,6 +192,10 @@ def run(cx, tier='quick'):
     check_scopes(cx, rep, None)
     from .c14 import include_merge
     include_merge(cx, rep)
+    from .dispatch import check_shape_dispatch
+    check_shape_dispatch(cx, rep, None)
+    from .dispatch import check_output_append
+    check_output_append(cx, rep, None)
     # an accepted `method = path` whose path is shadowed by a local of the generated function does not compile
     from .c19 import check_method_capture
     check_method_capture(cx, rep)
